@@ -1,5 +1,7 @@
 """Driver configuration and manifest text for C05 (see DESIGN.md)."""
 
+RULE_ADD = " Later additions: an 'idle-bump' template (a partition goes idle, a message on another broker's partition fails for good, the idle partition is written again) in a quarter of the cases; recycled message objects in a quarter of the cases; clause 'a batch that was on the wire comes again with the same records and first sequence only under the same epoch'; every clause is judged; known-finding regions are bounded by what the client did (hook event client-conn-error) and by whether another message may have been in the pipeline at an epoch bump."
+
 CHECK = {'pkg': '.',
  'sim': True,
  'parts': [{'name': 'idem', 'test': 'TestVF_C05', 'quick': {'shards': 8, 'checks': 200}, 'thorough': {'shards': 16, 'checks': 12000}}],
